@@ -498,6 +498,9 @@ class LegacyOpensslVersion(Version):
         major = int(major)
         minor = int(minor)
         if build.isdigit():
+            if str(int(build)) != build:
+                # such as 1.0.05: it would print as 1.0.5 which is not a known base
+                return False
             build = int(build)
             patch = ""
         else:
